@@ -22,22 +22,36 @@ ChartsSeq(S) == SelectSeq(<<"p", "s1", "s2">>, LAMBDA c : c \in S)
 SubsSeq(S)   == SelectSeq(<<"s1", "s2">>, LAMBDA c : c \in S)
 RanksSeq(S)  == SortInts(AnySeq(S))
 
-Case(fam, files, parts, notes, subs, crds, sn, dns, schema, at) ==
+Case(fam, files, parts, notes, subs, crds, dc, sn, dns, schema, at) ==
   [fam |-> fam, files |-> files, parts |-> RanksSeq(parts), notes |-> RanksSeq(notes), subs |-> SubsSeq(subs),
-   crds |-> ChartsSeq(crds), subNotes |-> sn, dns |-> dns, schema |-> schema, schemaAt |-> at]
+   crds |-> ChartsSeq(crds), decl |-> dc, subNotes |-> sn, dns |-> dns, schema |-> schema, schemaAt |-> at]
 
 (* ----- C08: documents of all kinds and classes in up to three files ---------- *)
 
 FilesAt(segs, paths) == [j \in DOMAIN segs |-> [p |-> paths[j], docs |-> segs[j]]]
 
+\* (one set comprehension per length: TLC normalises each set once; a UNION over thousands of small sets is quadratic)
+Min2(a, b) == IF a <= b THEN a ELSE b
+Max2(a, b) == IF a <= b THEN b ELSE a
+SplitsOfLen(types, n) == {Segs(ds, Min2(a, b), Max2(a, b)) : ds \in [1..n -> types], a \in 1..n, b \in 1..n}
+
 \* files p/templates/{a,b,c}.yaml
 PartCases(types, lo, hi) ==
-  {Case("part", FilesAt(sg, <<11, 12, 13>>), {}, {}, {}, {}, FALSE, FALSE, "none", "p") :
-     sg \in UNION {Splits(ds) : ds \in SeqsOf(types, lo, hi)}}
+  UNION {{Case("part", FilesAt(sg, <<11, 12, 13>>), {}, {}, {}, {}, "none", FALSE, FALSE, "none", "p") : sg \in SplitsOfLen(types, n)} : n \in lo..hi}
 \* the first file belongs to a subchart (sorts before the parent's files)
 PartSubCases(types, lo, hi) ==
-  {Case("part", FilesAt(sg, <<3, 11, 12>>), {}, {}, {"s1"}, {}, FALSE, FALSE, "none", "p") :
-     sg \in UNION {Splits(ds) : ds \in SeqsOf(types, lo, hi)}}
+  UNION {{Case("part", FilesAt(sg, <<3, 11, 12>>), {}, {}, {"s1"}, {}, "none", FALSE, FALSE, "none", "p") : sg \in SplitsOfLen(types, n)} : n \in lo..hi}
+
+\* long files: sort.Slice is stable up to 12 elements (insertion sort), so an unstable kind sort only
+\* shows on longer lists -- n documents, kinds cycling with stride a from offset b, in nf files
+LongKinds == <<"Secret", "Widget", "Deployment", "Gadget">>
+LongDocs(n, a, b) == [i \in 1..n |-> [k |-> LongKinds[((i * a + b) % 4) + 1],
+                                      c |-> IF i % 5 = 0 THEN "hook1" ELSE IF i % 7 = 0 THEN "unk" ELSE "plain", g |-> "LIT"]]
+LongCase(n, a, b, nf) ==
+  LET ds == LongDocs(n, a, b) IN
+  Case("part", FilesAt(IF nf = 1 THEN <<ds>> ELSE <<SubSeq(ds, 1, n \div 2), SubSeq(ds, (n \div 2) + 1, n)>>, <<11, 12, 13>>),
+       {}, {}, {}, {}, "none", FALSE, FALSE, "none", "p")
+LongCases == {LongCase(n, a, b, nf) : n \in {14, 25, 40}, a \in {1, 3}, b \in {0, 1}, nf \in {1, 2}}
 
 (* ----- C05: charts on two levels ------------------------------------------- *)
 
@@ -51,13 +65,16 @@ NotesIn(sb) == {8} \cup (IF "s1" \in sb THEN {1} ELSE {}) \cup (IF "s2" \in sb T
 
 \* "order" family: everything whose result could depend on a map order -- which charts have NOTES.txt
 \* (x SubNotes), which partials define the same named template, which charts carry CRDs
-OrderCase(sb, pa, no, cr, sn) ==
+OrderCase(sb, pa, no, cr, dc, sn) ==
   LET mains == RanksSeq({MainOf(c) : c \in {"p"} \cup sb}) IN
   Case("order", [j \in DOMAIN mains |-> OneDoc(mains[j], IF mains[j] = 3 THEN "hook1" ELSE "plain", IF pa = {} THEN "LIT" ELSE "INC")],
-       pa, no, sb, cr, sn, FALSE, "none", "p")
+       pa, no, sb, cr, dc, sn, FALSE, "none", "p")
+\* (listing the subcharts in Chart.yaml only matters for the CRD order: varied where both subcharts carry CRDs)
+DeclOpts(cr) == IF {"s1", "s2"} \subseteq cr THEN {"none", "rev"} ELSE {"none"}
 OrderCases ==
-  UNION {{OrderCase(sb, pa, no, cr, sn) : pa \in SUBSET PartsIn(sb), no \in SUBSET NotesIn(sb),
-                                          cr \in SUBSET ({"p"} \cup sb), sn \in BOOLEAN} :
+  UNION {UNION {{OrderCase(sb, pa, no, cr, dc, sn) : pa \in SUBSET PartsIn(sb), no \in SUBSET NotesIn(sb),
+                                                     sn \in BOOLEAN, dc \in DeclOpts(cr)} :
+                  cr \in SUBSET ({"p"} \cup sb)} :
            sb \in {{}, {"s1"}, {"s1", "s2"}}}
 
 \* "prog" family: up to n template files in parent and subchart, each computing its payload with one
@@ -66,7 +83,7 @@ OrderCases ==
 ProgsP == {"LIT", "VAL", "INC", "INC2", "TPL", "TPL2", "FGET", "FGLOB", "FOUT", "DNS"}
 ProgCase(asg, pa, dns) ==
   LET ps == RanksSeq(DOMAIN asg) IN
-  Case("prog", [j \in DOMAIN ps |-> OneDoc(ps[j], "plain", asg[ps[j]])], pa, {8}, {"s1"}, {}, FALSE, dns, "none", "p")
+  Case("prog", [j \in DOMAIN ps |-> OneDoc(ps[j], "plain", asg[ps[j]])], pa, {8}, {"s1"}, {}, "none", FALSE, dns, "none", "p")
 ProgCases(n) ==
   LET A == UNION {[S -> ProgsP] : S \in {T \in SUBSET {3, 4, 11, 12} : Cardinality(T) \in 1..n}} IN
   {ProgCase(asg, {2, 9}, FALSE) : asg \in A}
@@ -79,10 +96,26 @@ ErrCases ==
 
 \* "schema" family: values.schema.json of the parent / the subchart with a "$ref" in each URL form
 SchemaCases ==
-  {Case("schema", <<OneDoc(3, "plain", "LIT"), OneDoc(11, "plain", "LIT")>>, {}, {8}, {"s1"}, {}, FALSE, FALSE, r, at) :
+  {Case("schema", <<OneDoc(3, "plain", "LIT"), OneDoc(11, "plain", "LIT")>>, {}, {8}, {"s1"}, {}, "none", FALSE, FALSE, r, at) :
      r \in {"local", "rel", "file", "http"}, at \in {"p", "s1"}}
 
 NPaths(c) == Len(c.files) + Len(c.parts) + Len(c.notes)
+
+(* ----- the bounded spaces per property and tier ------------------------------- *)
+
+\* C05: charts on two levels. State-machine exploration (MC_Render) is limited by the number of
+\* template paths (permutations per map walk); the reference function F is evaluated on all of them.
+C05All(n)     == OrderCases \cup ProgCases(n) \cup ErrCases \cup SchemaCases
+C05Machine(m, n) == {c \in OrderCases : NPaths(c) <= m} \cup ProgCases(n) \cup ErrCases \cup SchemaCases
+\* inputs on which the strict determinism invariants are checked to SHOW where the model is not a function
+StrictInputs  == {c \in OrderCases : NPaths(c) <= 4} \cup SchemaCases
+
+\* C08: all document sequences over kind x class (one flavour per class) in up to three files,
+\* and every flavour incl. blank / comment-only documents for up to two documents
+C08All(n, m)  == PartCases(LitTypes(AbsCls), 1, n) \cup PartSubCases(LitTypes(AbsCls), 1, m) \cup PartCases(LitTypes(AllCls), 1, 2) \cup LongCases
+\* longer sequences in ONE file (no cut): lo..hi documents
+OneFileCases(types, lo, hi) ==
+  {Case("part", FilesAt(<<ds>>, <<11, 12, 13>>), {}, {}, {}, {}, "none", FALSE, FALSE, "none", "p") : ds \in SeqsOf(types, lo, hi)}
 
 (* ----- export ---------------------------------------------------------------- *)
 
